@@ -237,6 +237,17 @@ add(property='C08', id='C08-mirror-terms', status='open', clause='surface_term_T
     reproducer={'kind': 'spec', 'spec': spec([surf(R=-100.0, t=-45.0, mat=MIRROR, stop=True)], ap=('EPD', 20.0),
                                              fields=(0.0, 2.0))})
 
+add(property='C07', id='C07-chebyshev-normal', status='open', clause='lengths_scale_with_the_prescription',
+    what='same root cause as C02-chebyshev-normal (missing 1/norm in the Chebyshev gradient): scaling all lengths of a '
+         'lens with a Chebyshev surface does not scale the rays behind that surface, because the erroneous part of the '
+         'normal depends on norm_x/norm_y',
+    region='rescale of a lens containing a Chebyshev surface with non-zero coefficients',
+    weakened_relation='records in front of the first Chebyshev surface scale with s',
+    reproducer={'kind': 'rescale', 'spec': spec([surf(R=40.0, t=5.0, mat=glass(1.6), stop=True),
+                                                 surf(type='chebyshev', R=-60.0, t=40.0, coef=[[0.0, 0.02], [0.01, 0.0]],
+                                                      norm=20.0)], ap=('EPD', 8.0), fields=(0.0, 3.0)),
+                'rays': [[0.0, 0.0, 0.0], [0.5, 0.3, 0.4], [1.0, -0.5, 0.5]], 'logs': 1.0, 'wl': 0})
+
 for _e in F:
     if _e['id'] == 'C13-caller-arrays':
         _e['reproducer']['spec']['fields'][1].update(vx=0.2, vy=0.3)
